@@ -8,8 +8,11 @@ the next write) can be materialised into a fresh directory = the directory a
 kill at that instant would have left behind.
 
 Model: completed operations persist; everything after the crash point is
-lost; a `write` may be torn (only a prefix of its bytes arrived).  Power-loss
-reordering of completed-but-unsynced operations is NOT modelled.
+lost; a `write` may be torn (only a prefix of its bytes arrived); bytes written
+to a handle that was neither flushed nor closed yet live in the process's
+buffer and may be lost entirely ("unflushed" crash points - they matter when a
+file is renamed into place before it is closed).  Power-loss reordering of
+completed-but-unsynced operations is NOT modelled.
 """
 import builtins
 import io
@@ -46,6 +49,7 @@ class _Proxy:
             self.write(l)
 
     def flush(self):
+        self._rec._emit(dict(op="flush", path=self._rel, h=self._hid))
         return self._real.flush()
 
     def close(self):
@@ -107,7 +111,7 @@ class Recorder:
         return None
 
     def _emit(self, ev):
-        if ev["op"] not in ("write", "close") and self._open_handles:
+        if ev["op"] not in ("write", "close", "flush") and self._open_handles:
             self.overlap = True
         if ev["op"] == "write" and len(self._open_handles) > 1:
             self.overlap = True
@@ -238,7 +242,7 @@ def apply_event(fs, ev, partial=None):
     elif op == "write":
         data = ev["data"] if partial is None else ev["data"][:partial]
         fs[p] = (fs.get(p) or b"") + data
-    elif op == "close":
+    elif op in ("close", "flush"):
         pass
     elif op == "remove":
         fs.pop(p, None)
@@ -250,27 +254,90 @@ def apply_event(fs, ev, partial=None):
         raise ValueError(op)
 
 
+class _Handles:
+    """tracks, along an event prefix, which path each open write handle currently backs and how many of its
+    bytes have not been flushed"""
+
+    def __init__(self):
+        self.h = {}
+
+    def path_of(self, ev):
+        h = ev.get("h")
+        return self.h[h]["path"] if h in self.h else ev["path"]
+
+    def step(self, ev):
+        op, h = ev["op"], ev.get("h")
+        if op == "open":
+            self.h[h] = dict(path=ev["path"], unflushed=0)
+        elif op == "write" and h in self.h:
+            self.h[h]["unflushed"] += len(ev["data"])
+        elif op == "flush" and h in self.h:
+            self.h[h]["unflushed"] = 0
+        elif op == "close":
+            self.h.pop(h, None)
+        elif op == "rename":
+            for st in self.h.values():
+                if st["path"] == ev["path"]:
+                    st["path"] = ev["dst"]
+                elif st["path"] == ev["dst"]:
+                    st["path"] = None      # the file this handle backs was replaced: it is unlinked now
+        elif op == "remove":
+            for st in self.h.values():
+                if st["path"] == ev["path"]:
+                    st["path"] = None
+
+    def dirty(self):
+        return [st for st in self.h.values() if st["unflushed"] > 0 and st["path"] is not None]
+
+
+def _apply(fs, hs, ev, partial=None):
+    if ev["op"] == "write":
+        p = hs.path_of(ev)
+        if p is not None:
+            apply_event(fs, dict(ev, path=p), partial=partial)
+    else:
+        apply_event(fs, ev, partial=partial)
+    if partial is None:
+        hs.step(ev)
+
+
+def _drop_unflushed(fs, hs):
+    out = dict(fs)
+    for st in hs.dirty():
+        b = out.get(st["path"])
+        if b is not None:
+            out[st["path"]] = b[:max(0, len(b) - st["unflushed"])]
+    return out
+
+
 def crash_states(events, initial=None, torn=True):
     """Yield (label dict, fs dict) for every crash point: before event k for
-    all k, after the last event, plus torn variants of every write."""
+    all k, after the last event, plus torn variants of every write, plus - where an open handle has
+    unflushed bytes - the variant in which the process buffer is lost."""
     fs = dict(initial or {})
+    hs = _Handles()
     for k, ev in enumerate(events):
         yield dict(point="before", k=k, op=ev["op"], path=ev["path"]), dict(fs)
+        if hs.dirty():
+            yield dict(point="unflushed", k=k, op=ev["op"], path=ev["path"], lost=True), _drop_unflushed(fs, hs)
         if torn and ev["op"] == "write" and len(ev["data"]) >= 2:
             half = dict(fs)
-            apply_event(half, ev, partial=len(ev["data"]) // 2)
+            _apply(half, hs, ev, partial=len(ev["data"]) // 2)
             yield dict(point="torn", k=k, op="write", path=ev["path"], bytes=len(ev["data"]) // 2,
                        of=len(ev["data"])), half
-        apply_event(fs, ev)
+        _apply(fs, hs, ev)
     yield dict(point="end", k=len(events), op="none", path=""), dict(fs)
 
 
-def state_at(events, k, torn_bytes=None, initial=None):
+def state_at(events, k, torn_bytes=None, initial=None, lost=False):
     fs = dict(initial or {})
+    hs = _Handles()
     for ev in events[:k]:
-        apply_event(fs, ev)
+        _apply(fs, hs, ev)
+    if lost:
+        return _drop_unflushed(fs, hs)
     if torn_bytes is not None:
-        apply_event(fs, events[k], partial=torn_bytes)
+        _apply(fs, hs, events[k], partial=torn_bytes)
     return fs
 
 
